@@ -249,4 +249,33 @@ theorem goReq_search {r c : Re} (hrel : FoldRel r c) {u : Bytes} (h : search c u
   rw [toLower_append, toLower_append]
   exact hasSub_append_left _ (hasSub_append_right _ this)
 
+/-- Whenever the text-level shortcut model answers, the answer is empty or the candidate selected
+    against `goReq` of the parsed text (the text has no `?`, hence no flag prefix). -/
+theorem modelRegexpShortcut_some {p sc : Bytes} (h : modelRegexpShortcut p = some sc) :
+    sc = [] ∨ (((p.drop 1).dropLast).any (· == 63) = false ∧
+      ∃ tree, parseCore ((p.drop 1).dropLast) = some tree ∧
+        sc = pickLongest (regexParts ((p.drop 1).dropLast)) (goReq tree)) := by
+  unfold modelRegexpShortcut at h
+  simp only at h
+  split at h
+  · cases h
+  · split at h
+    · cases h; exact .inl rfl
+    · rename_i hq
+      right
+      refine ⟨by simpa using Bool.eq_false_iff.2 hq, ?_⟩
+      cases hp : parseCore ((p.drop 1).dropLast) with
+      | none => rw [hp] at h; cases h
+      | some tree =>
+        rw [hp] at h
+        refine ⟨tree, rfl, ?_⟩
+        simp only at h
+        split at h
+        · split at h
+          · split at h
+            · cases h; rfl
+            · cases h
+          · cases h
+        · cases h; rfl
+
 end UF.I2
